@@ -218,6 +218,38 @@ theorem canonicalize_protocol_is_standard_partial (idna : Idna) (L : Nat) (v : B
   PC.protocol_eq idna L v hslow
 
 open AdaVerif.Model.PatternCanon AdaVerif.Lemmas in
+/-- **`url_pattern_init::process_*`** are "process protocol / username / password / hostname / port / pathname / search / hash
+    for init": the single trailing ':' (leading '?', '#') dropped first, the value returned as it is for type "pattern", else
+    the canonicalisation callback - for the pathname the ordinary or the opaque one by the protocol, for the port with the
+    protocol as the dummy URL's scheme.  The four that do not go through a URL object, and the port, for every value; the
+    other three relative to their callbacks (`canonicalize_*_is_standard_partial`) -/
+theorem process_for_init_is_standard (value protocol : Bytes) (pat : Bool) (hp : protocol.getLast? ≠ some 0x3A) :
+    processUsername value pat = Spec.Pattern.processUsernameForInit value pat ∧
+    processPassword value pat = Spec.Pattern.processPasswordForInit value pat ∧
+    processSearch value pat = Spec.Pattern.processSearchForInit value pat ∧
+    processHash value pat = Spec.Pattern.processHashForInit value pat ∧
+    processPort value protocol pat = Spec.Pattern.processPortForInit value protocol pat :=
+  ⟨(PC.processSimple_eq value pat).1, (PC.processSimple_eq value pat).2.1, (PC.processSimple_eq value pat).2.2.1,
+   (PC.processSimple_eq value pat).2.2.2, PC.processPort_eq value protocol pat hp⟩
+
+open AdaVerif.Model.PatternCanon AdaVerif.Lemmas in
+theorem process_for_init_via_callbacks (idna : Idna) (L : Nat) (value protocol : Bytes) (pat : Bool)
+    (hproto : ∀ x, canonicalizeProtocol idna L x = Spec.Pattern.canonProtocol idna x)
+    (hhost : canonicalizeHostname idna L value = Spec.Pattern.canonHostname idna value)
+    (hpath : canonicalizePathname L value = Spec.Pattern.canonPathname value) :
+    processProtocol idna L value pat = Spec.Pattern.processProtocolForInit idna value pat ∧
+    processHostname idna L value pat = Spec.Pattern.processHostnameForInit idna value pat ∧
+    processPathname L value protocol pat = Spec.Pattern.processPathnameForInit value protocol pat := by
+  unfold processProtocol processHostname processPathname Spec.Pattern.processProtocolForInit
+    Spec.Pattern.processHostnameForInit Spec.Pattern.processPathnameForInit
+  cases pat with
+  | true => exact ⟨rfl, rfl, rfl⟩
+  | false =>
+    simp only [Bool.false_eq_true, ↓reduceIte]
+    refine ⟨hproto _, hhost, ?_⟩
+    rw [Proto.isSpecial_eq, hpath, (canonicalize_ipv6_opaque_is_standard value).2]
+
+open AdaVerif.Model.PatternCanon AdaVerif.Lemmas in
 /-- the helpers around the callbacks: `escape_pattern_string`, `escape_regexp_string` (over the regenerated tables),
     `process_base_url_string`, `is_ipv6_address`, `is_absolute_pathname` are the Standard's "escape a pattern string",
     "escape a regexp string", "process a base URL string", "hostname pattern is an IPv6 address", "is an absolute pathname" -/
